@@ -3,6 +3,8 @@ package sim_test
 import (
 	"strings"
 	"testing"
+	"time"
+	"verif.local/sim/simtime"
 
 	"verif.local/sim/simchan"
 	"verif.local/sim/simrt"
@@ -160,5 +162,42 @@ func TestChanSendConversions(t *testing.T) {
 	})
 	if s.Failure != nil {
 		t.Fatal(s.Failure)
+	}
+}
+
+func TestTimers(t *testing.T) {
+	s := chanSim(3, 0)
+	var order []string
+	s.Run(func() {
+		slow := simtime.After(5 * time.Second)
+		tk := simtime.NewTicker(time.Second)
+		stopped := simtime.NewTimer(2 * time.Second)
+		stopped.Stop()
+		simtime.AfterFunc(1500*time.Millisecond, func() { order = append(order, "func") })
+		ticks := 0
+		for {
+			switch i, _, _ := simchan.Select(false, simchan.R(slow), simchan.R(tk.C), simchan.R(stopped.C)); i {
+			case 0:
+				order = append(order, "slow")
+				tk.Stop()
+				return
+			case 1:
+				ticks++
+				if ticks == 2 {
+					order = append(order, "tick2")
+				}
+			case 2:
+				order = append(order, "stopped-fired")
+			}
+		}
+	})
+	if s.Failure != nil || s.Stuck {
+		t.Fatal(s.Failure, s.Stuck)
+	}
+	if got := strings.Join(order, ","); got != "func,tick2,slow" {
+		t.Fatal(got)
+	}
+	if s.Now() < int64(5*time.Second) {
+		t.Fatal("clock did not advance")
 	}
 }
